@@ -820,9 +820,10 @@ class TDS(BaseRoutine):
 
         # if a `custom_event` flag is set (without a specific callback)
         if self.custom_event is True:
-            # skip if scheduled events at this time have just been dispatched above;
-            # calling them again would apply the same event twice
-            if ret is False:
+            # skip if scheduled events at this time have been dispatched, just above or by an
+            # earlier call at this same time (e.g., events at the starting time are dispatched
+            # before the first step); calling them again would apply the same event twice
+            if ret is False and not np.equal(system.dae.t, self._last_switch_t):
                 system.switch_action(system.exist.pflow_tds)
             self._last_switch_t = system.dae.t.tolist()
             system.vars_to_models()
